@@ -179,6 +179,30 @@ theorem write_invU (s : St) (i : Id) (n : Nat) (o : Outcome) (h : InvU s) : InvU
     · exact updClient_invU s i c _ h hc
   · exact h
 
+theorem mkPair_invU (s : St) (i : Id) (h : InvU s) : InvU (mkPair s i) := by
+  unfold mkPair fresh
+  dsimp only
+  split
+  · refine InvU.sameO ?_ (pollSet_sameO _ _ _)
+    invu_leaf h
+  · exact h
+
+theorem mkListener_invU (s : St) (i : Id) (h : InvU s) : InvU (mkListener s i) := by
+  unfold mkListener fresh
+  dsimp only
+  split
+  · refine InvU.sameO ?_ (pollSet_sameO _ _ _)
+    invu_leaf h
+  · exact h
+
+theorem mkEst_invU (s : St) (i : Id) (h : InvU s) : InvU (mkEst s i) := by
+  unfold mkEst fresh
+  dsimp only
+  split
+  · refine InvU.sameO ?_ (pollSet_sameO _ _ _)
+    invu_leaf h
+  · exact h
+
 theorem applyAct_invU (s : St) (nc : Option Id) (a : Act) (h : InvU s) : InvU (applyAct s nc a) := by
   cases a <;> unfold applyAct
   case mkTimer i iv => exact mkTimer_invU s i iv h
@@ -193,6 +217,9 @@ theorem applyAct_invU (s : St) (nc : Option Id) (a : Act) (h : InvU s) : InvU (a
   case resume i => exact resume_invU s i h
   case read i => exact read_invU s i h
   case write i n o => exact write_invU s i n o h
+  case mkPair i => exact mkPair_invU s i h
+  case mkListener i => exact mkListener_invU s i h
+  case mkEst i => exact mkEst_invU s i h
 
 theorem runActs_invU (s : St) (nc : Option Id) (acts : List Act) (h : InvU s) : InvU (runActs s nc acts) := by
   induction acts generalizing s with
@@ -354,29 +381,5 @@ theorem envStep_invU (s : St) (e : EnvOp) (h : InvU s) : InvU (envStep s e) := b
     split
     · rename_i l hl; exact updEst_invU s i l _ h hl
     · exact h
-
-theorem mkPair_invU (s : St) (i : Id) (h : InvU s) : InvU (mkPair s i) := by
-  unfold mkPair fresh
-  dsimp only
-  split
-  · refine InvU.sameO ?_ (pollSet_sameO _ _ _)
-    invu_leaf h
-  · exact h
-
-theorem mkListener_invU (s : St) (i : Id) (h : InvU s) : InvU (mkListener s i) := by
-  unfold mkListener fresh
-  dsimp only
-  split
-  · refine InvU.sameO ?_ (pollSet_sameO _ _ _)
-    invu_leaf h
-  · exact h
-
-theorem mkEst_invU (s : St) (i : Id) (h : InvU s) : InvU (mkEst s i) := by
-  unfold mkEst fresh
-  dsimp only
-  split
-  · refine InvU.sameO ?_ (pollSet_sameO _ _ _)
-    invu_leaf h
-  · exact h
 
 end Nstd.Server.C14
